@@ -78,6 +78,11 @@ class OrderedRingBuffer(Generic[FloatArray]):
 
         self._buffer: FloatArray = buffer
         self._sampling_period: timedelta = sampling_period
+        # Arithmetic on an aware datetime is wall-clock arithmetic in its own zone:
+        # keep the alignment point in UTC so that slots are exact multiples of
+        # the sampling period also for zones with a varying UTC offset (DST).
+        if align_to.tzinfo is not None:
+            align_to = align_to.astimezone(timezone.utc)
         self._time_index_alignment: datetime = align_to
 
         self._gaps: list[Gap] = []
